@@ -586,8 +586,56 @@ def thread_known_discriminants(prog, d, max_new=400):
             if any(st2["place"]["local"] == x for st2 in b["stmts"]):
                 continue
             sw[si] = x
-        if not sw:
+        # switches directly on a flag: `let invalid = a || b || c; if invalid { .. }` assigns constants to the flag
+        flag_sw = {}
+        for si, b in enumerate(blocks):
+            if b["cleanup"] or b["term"]["k"] != "switch" or si in sw or len(b["stmts"]) > 4:
+                continue
+            dop = b["term"]["discr"]
+            if dop.get("k") not in ("copy", "move") or dop["place"]["proj"]:
+                continue
+            x = dop["place"]["local"]
+            for st2 in reversed(b["stmts"]):
+                if st2["place"]["local"] == x and not st2["place"]["proj"] and st2["rv"]["k"] == "use" and st2["rv"]["op"].get("k") in ("copy", "move") and not st2["rv"]["op"]["place"]["proj"]:
+                    x = st2["rv"]["op"]["place"]["local"]
+            if any(st2["place"]["local"] == x for st2 in b["stmts"]):
+                continue
+            flag_sw[si] = x
+        if not sw and not flag_sw:
             break
+        for bi in range(len(blocks)):
+            b = blocks[bi]
+            if b["cleanup"] or bi in flag_sw or b["term"]["k"] != "goto" or added >= max_new:
+                continue
+            nxt, hops = b["term"]["target"], 0
+            while nxt not in flag_sw and hops < 6 and not blocks[nxt]["cleanup"] and not blocks[nxt]["stmts"] and blocks[nxt]["term"]["k"] == "goto":
+                nxt = blocks[nxt]["term"]["target"]
+                hops += 1
+            if nxt not in flag_sw:
+                continue
+            x = flag_sw[nxt]
+            val = None
+            for st in reversed(b["stmts"]):
+                if st["place"]["local"] == x:
+                    rv = st["rv"]
+                    if not st["place"]["proj"] and rv["k"] == "use" and rv["op"].get("k") == "const" and "bits" in rv["op"]:
+                        val = int(rv["op"]["bits"])
+                    break
+            if val is None:
+                continue
+            sb = blocks[nxt]
+            tgt = None
+            for v, tb in sb["term"]["targets"]:
+                if str(v) == str(val):
+                    tgt = tb
+            if tgt is None:
+                tgt = sb["term"]["otherwise"]
+            blocks.append({"cleanup": False, "stmts": copy.deepcopy(sb["stmts"]), "term": {"k": "goto", "target": tgt}, "threaded": "flag"})
+            b["term"] = {"k": "goto", "target": len(blocks) - 1}
+            added += 1
+            changed = progress = True
+        if not sw:
+            continue
         for bi in range(len(blocks)):
             b = blocks[bi]
             if b["cleanup"] or bi in sw:
